@@ -504,6 +504,7 @@ func (e *Env) index(v, i Val) Val {
 		hn := elemHeapName(et)
 		es := g.sortOf(et)
 		h := g.heap(e.st, hn, "(Array Int (Array Int "+es+"))")
+		g.noteHeapKind(&Loc{Kind: LElem, Heap: hn, G: et})
 		return Val{T: sx("select", sx("select", h, sx("s-arr", v.T)), sx("idx", sx("s-off", v.T), i.T)), S: es, G: et}
 	case strings.HasPrefix(v.S, "(Array Int "):
 		es := strings.TrimSuffix(strings.TrimPrefix(v.S, "(Array Int "), ")")
@@ -520,6 +521,7 @@ func (e *Env) index(v, i Val) Val {
 				hn := elemHeapName(a.Elem())
 				es := g.sortOf(a.Elem())
 				h := g.heap(e.st, hn, "(Array Int (Array Int "+es+"))")
+				g.noteHeapKind(&Loc{Kind: LElem, Heap: hn, G: a.Elem()})
 				return Val{T: sx("select", sx("select", h, v.T), i.T), S: es, G: a.Elem()}
 			}
 		}
@@ -954,7 +956,12 @@ func (e *Env) modLocs(x Expr) []modLoc {
 					return []modLoc{{heap: loc.Heap, base: loc.Base, sort: loc.S, g: loc.G}}
 				}
 				var out []modLoc
-				for _, h := range g.structHeapsSorted(sub.G.Underlying().(*types.Pointer).Elem()) {
+				pe := sub.G.Underlying().(*types.Pointer).Elem()
+				if a, ok := pe.Underlying().(*types.Array); ok {
+					// array-valued field: all its elements
+					return []modLoc{{heap: elemHeapName(a.Elem()), base: sub.T, sort: g.sortOf(a.Elem()), elem: true, g: a.Elem()}}
+				}
+				for _, h := range g.structHeapsSorted(pe) {
 					out = append(out, modLoc{heap: h.name, base: sub.T, sort: h.sort, g: h.g})
 				}
 				return out
@@ -1018,8 +1025,8 @@ func (g *Gen) structHeapsSorted(t types.Type) []heapInfo {
 	}
 	for i := 0; i < s.NumFields(); i++ {
 		f := s.Field(i)
-		if _, ok := f.Type().Underlying().(*types.Struct); ok {
-			// nested by-value struct: sub-object has its own reference; callers use e.f for those
+		if isAggregate(f.Type()) {
+			// nested by-value struct or array: sub-object has its own reference; callers use e.f for those
 			continue
 		}
 		out = append(out, heapInfo{fieldHeapName(typeKey(t), f.Name()), g.sortOf(f.Type()), f.Type()})
